@@ -914,7 +914,7 @@ def witness(ctx):
             for lo, hi in ((0.0, 1.0), (-2.0, 0.5)):
                 ctx.check("clamp", dict(spec=b, D=D, N=N, lo=lo, hi=hi, seed=s0))
             ctx.check("scale", dict(spec=b, D=D, N=N, scale=-1.75, seed=s0))
-            for spec in (b, S(b, -2.0), C(b), M(b, S(b, -3.0)), M(b, base_specs(D)[0])):
+            for spec in (b, S(b, -2.0), S(S(b, 2.0), 3.0), S(S(S(b, -0.5), 4.0), 1.5), C(b), M(b, S(b, -3.0)), M(b, base_specs(D)[0])):
                 ctx.check("fun_form", dict(spec=spec, D=D, N=N, seed=s0))
         ctx.check("multi", dict(specs=[b for b in base_specs(D) if not (b["cls"] == "RandomSineWaves1d" and D != 1)], D=D, N=N, seed=s0))
     # option validation
